@@ -60,6 +60,11 @@ var c13Replacements = []struct {
 	{"meta", Flags{R: `<V "x" \ é日>`}},
 	{"empty", Flags{REmpty: true}},
 	{"regexy", Flags{R: `a.b*(c)[d]$^|+?{1}`}},
+	// text that a template / regexp replacement routine would expand
+	{"dollar-end", Flags{R: "US$"}},
+	{"dollar-start", Flags{R: "$REDACTED"}},
+	{"group-ref", Flags{R: "${1}x$2"}},
+	{"percent", Flags{R: "100%s %d%%"}},
 }
 
 func c13Run(c *Ctx) {
@@ -195,6 +200,7 @@ func c13Run(c *Ctx) {
 		}
 	}
 	Flags{}.Apply()
+	c13Big(c)
 
 	// --- histories: explicit-state search over the write-only side table -----------------------
 	// alphabet: 8 names + 2 redactions of lines that pseudonymise other names
@@ -304,14 +310,17 @@ func c13CLI(c *Ctx, dict []string) {
 				"attr", LO("ns", LS("dbq."+n)))
 		} else {
 			l = LO("t", LO("$date", LS("2024-01-01T00:00:00.000Z")), "s", LS("I"), "c", LS("COMMAND"), "id", LN("1"), "ctx", LS(fmt.Sprintf("conn%d", i)), "msg", LS("Slow query"),
-				"attr", LO("ns", LS("dbq.cq"), "command", LO("find", LS("cq"), "filter", LO(n, LN("1")), "$db", LS("dbq"))))
+				"attr", LO("ns", LS("dbq.cq"), "command", LO("find", LS("cq"), "filter", LO(n, LN("1")), "$db", LS("dbq")), "planSummary", LS(c13Plan(n))))
 		}
 		in.WriteString(l.JSON())
 		in.WriteByte('\n')
 	}
 	inPath := filepath.Join(dir, "in.log")
 	os.WriteFile(inPath, []byte(in.String()), 0o644)
-	for _, rp := range c13Replacements[:3] {
+	for _, rp := range append(append([]struct {
+		name string
+		f    Flags
+	}{}, c13Replacements[:3]...), c13Replacements[5:]...) {
 		f := rp.f
 		if mode == 0 {
 			f.W = true
@@ -350,6 +359,17 @@ func c13CLI(c *Ctx, dict []string) {
 					got = fl.Keys[0]
 				}
 				want = HashName(n)
+				// the same name as an index key of the plan summary: the same pseudonym
+				if c13Plan(n) != "COLLSCAN" {
+					ps := ""
+					if v := jget(attr, "planSummary"); v != nil {
+						ps = v.Str
+					}
+					if wantPS := "IXSCAN { " + want + ": 1, " + HashName("zzOther") + ": -1 }"; ps != wantPS {
+						c.Violate("cli:plan-summary-pseudonym", fmt.Sprintf("the index key %q of the plan summary became %q, expected %q (the pseudonym the same name gets as a filter key; flags %s)", n, ps, wantPS, f), int64(len(n)),
+							map[string]any{"kind": "cli13", "name": n, "flags": f.String()}, nil)
+					}
+				}
 			}
 			c.Distinct(fmt.Sprintf("cli%d\x00%s\x00%s", mode, rp.name, n))
 			if got != want {
@@ -359,6 +379,104 @@ func c13CLI(c *Ctx, dict []string) {
 		}
 	}
 	Flags{}.Apply()
+}
+
+// c13Plan: a plan summary that names the field as an index key — for names the summary syntax can hold
+var c13PlanName = regexp.MustCompile(`^[A-Za-z0-9_][A-Za-z0-9_.\-]*$`)
+
+func c13Plan(n string) string {
+	if c13PlanName.MatchString(n) && !strings.Contains(n, "..") && !strings.HasSuffix(n, ".") {
+		return "IXSCAN { " + n + ": 1, zzOther: -1 }"
+	}
+	return "COLLSCAN"
+}
+
+// c13Big: a dictionary large enough that ANY name table, memo or cache addressed by a digest of 32 bits or fewer
+// is bound to confuse some pair: ~2.6 M (thorough 10 M) identifiers of equal length (birthday bound: hundreds of
+// pairs for every 32-bit function), hashed in this process in one order and again in the opposite order.  Only the
+// 64-bit pseudonym value is kept per name.  Every worker is a separate process with its own order; the digests of
+// the tables must agree.
+func c13Big(c *Ctx) {
+	words := []string{"user", "order", "item", "price", "total", "city", "zip", "phone", "mail", "name", "first", "last", "date", "time", "flag", "code", "type", "kind", "note", "text", "path", "size", "rank", "cost", "unit", "area", "zone", "lane", "door", "room", "seat", "slot", "page", "line", "word", "mark", "sign", "tone", "hue", "tint"}
+	n1 := 1600000
+	if c.Thorough() {
+		n1 = 9000000
+	}
+	total := n1 + len(words)*len(words)*len(words)*16
+	name := func(i int) string {
+		if i < n1 {
+			// fixed length 8: 'n' + 7 base-36 digits
+			const d = "0123456789abcdefghijklmnopqrstuvwxyz"
+			b := [8]byte{'n'}
+			v := i*7 + 3
+			for k := 7; k >= 1; k-- {
+				b[k] = d[v%36]
+				v /= 36
+			}
+			return string(b[:])
+		}
+		j := i - n1
+		w := len(words)
+		a, b2, c2, v := j%w, (j/w)%w, (j/(w*w))%w, j/(w*w*w)
+		t := words[c2]
+		return words[a] + strings.ToUpper(words[b2][:1]) + words[b2][1:] + strings.ToUpper(t[:1]) + t[1:] + string(rune('A'+v))
+	}
+	Flags{}.Apply()
+	form := regexp.MustCompile("^REDACTED_[0-9a-f]{16}$")
+	vals := make([]uint64, total)
+	rev := c.Shard%2 == 1
+	at := func(k int) int {
+		if rev {
+			return total - 1 - k
+		}
+		return k
+	}
+	for k := 0; k < total; k++ {
+		i := at(k)
+		h := HashName(name(i))
+		if len(h) != 25 || !form.MatchString(h) {
+			c.Violate("form", fmt.Sprintf("pseudonym %q of component %q is not <replacement>_<16 hex>", h, name(i)), 8, map[string]any{"kind": "hashname", "name": name(i), "replacement": "REDACTED"}, nil)
+			continue
+		}
+		fmt.Sscanf(h[9:], "%x", &vals[i])
+	}
+	c.Eval(int64(total))
+	// opposite order: the same answers
+	for k := total - 1; k >= 0; k-- {
+		i := at(k)
+		var v uint64
+		h := HashName(name(i))
+		if len(h) == 25 {
+			fmt.Sscanf(h[9:], "%x", &v)
+		}
+		if v != vals[i] {
+			c.Violate("unstable:second-call", fmt.Sprintf("HashName(%q) returned …%016x first and %q later, after %d other names had been hashed", name(i), vals[i], h, total), 8,
+				map[string]any{"kind": "hashname-big", "name": name(i)}, nil)
+		}
+	}
+	c.Eval(int64(total))
+	seen := make(map[uint64]int32, total)
+	for i, v := range vals {
+		if j, ok := seen[v]; ok {
+			c.Violate("collision", fmt.Sprintf("components %q and %q share the pseudonym REDACTED_%016x (dictionary of %d equal-length identifiers, hashed in one process)", name(int(j)), name(i), v, total), 8,
+				map[string]any{"kind": "hashname-big", "name": name(i), "other": name(int(j))}, nil)
+			continue
+		}
+		seen[v] = int32(i)
+	}
+	hd := sha256.New()
+	var buf [8]byte
+	for _, v := range vals {
+		for k := 0; k < 8; k++ {
+			buf[k] = byte(v >> (8 * k))
+		}
+		hd.Write(buf[:])
+	}
+	c.Fact("digest_big", fmt.Sprintf("%x", hd.Sum(nil)))
+	c.Count("max:big_dictionary_components", int64(total))
+	if c.Shard == 0 {
+		c.Distinct("big-dictionary")
+	}
 }
 
 func jget(n *JNode, key string) *JNode {
